@@ -1,4 +1,247 @@
-From Coq Require Import List String Bool Arith.
+(* C19 lemmas, part 1: identifiers, Migrator.get_steps / Revision.__sub__, the DDL statements. *)
+From Coq Require Import List String Bool Arith Lia.
 From PAFC19 Require Import Syntax Gen Model.
 Import ListNotations.
-Lemma placeholder : True. Proof. exact I. Qed.
+Open Scope string_scope.
+Open Scope list_scope.
+
+(* ---------- generic list facts ---------- *)
+
+Lemma NoDup_app_disjoint {A} (l1 l2 : list A) (x : A) :
+  NoDup (l1 ++ l2) -> In x l1 -> In x l2 -> False.
+Proof.
+  induction l1 as [|a l1 IH]; simpl; intros ND H1 H2; [contradiction|].
+  inversion ND as [|? ? Hn ND']; subst.
+  destruct H1 as [->|H1].
+  - apply Hn. apply in_or_app. right. exact H2.
+  - exact (IH ND' H1 H2).
+Qed.
+
+Lemma list_eqb_string_eq (a b : list string) : list_eqb String.eqb a b = true -> a = b.
+Proof.
+  revert b. induction a as [|x a IH]; destruct b as [|y b]; simpl; intro H; try discriminate; [reflexivity|].
+  apply andb_true_iff in H. destruct H as [H1 H2]. apply String.eqb_eq in H1. subst. f_equal. auto.
+Qed.
+
+Fixpoint nodupb (l : list string) : bool :=
+  match l with
+  | [] => true
+  | x :: l' => negb (existsb (String.eqb x) l') && nodupb l'
+  end.
+
+Lemma nodupb_NoDup (l : list string) : nodupb l = true -> NoDup l.
+Proof.
+  induction l as [|x l IH]; simpl; intro H; [constructor|].
+  apply andb_true_iff in H. destruct H as [H1 H2]. constructor; [|auto].
+  intro Hin. apply negb_true_iff in H1.
+  assert (E : existsb (String.eqb x) l = true).
+  { apply existsb_exists. exists x. split; [exact Hin | apply String.eqb_refl]. }
+  congruence.
+Qed.
+
+(* ---------- get_steps ---------- *)
+
+Section GetSteps.
+  Variable md5 : string -> string.
+  Notation step_id := (step_id md5).
+  Notation rev_id := (rev_id md5).
+  Notation step_in := (step_in md5).
+  Notation rev_sub := (rev_sub md5).
+  Notation find_rev := (find_rev md5).
+  Notation get_steps := (get_steps md5).
+
+  Definition ids_distinct (ss : list step) : Prop := NoDup (map step_id ss).
+  Definition revs_distinct (ss : list step) : Prop := NoDup (map rev_id (revisions ss)).
+
+  Lemma step_in_self (s : step) (l : list step) : In s l -> step_in s l = true.
+  Proof.
+    intro H. unfold Model.step_in. apply existsb_exists. exists s. split; [exact H | apply String.eqb_refl].
+  Qed.
+
+  Lemma step_in_false (a b : list step) (s : step) :
+    NoDup (map step_id (a ++ b)) -> In s b -> step_in s a = false.
+  Proof.
+    intros ND Hb. destruct (step_in s a) eqn:E; [|reflexivity]. exfalso.
+    unfold Model.step_in in E. apply existsb_exists in E. destruct E as [o [Ho Heq]].
+    apply String.eqb_eq in Heq. rewrite map_app in ND.
+    apply (NoDup_app_disjoint _ _ (step_id s) ND).
+    - rewrite Heq. apply in_map. exact Ho.
+    - apply in_map. exact Hb.
+  Qed.
+
+  Lemma filter_all_false {A} (f : A -> bool) (l : list A) : (forall x, In x l -> f x = false) -> filter f l = [].
+  Proof.
+    induction l as [|x l IH]; simpl; intro H; [reflexivity|].
+    rewrite (H x (or_introl eq_refl)). apply IH. intros y Hy. apply H. right. exact Hy.
+  Qed.
+
+  Lemma filter_all_true {A} (f : A -> bool) (l : list A) : (forall x, In x l -> f x = true) -> filter f l = l.
+  Proof.
+    induction l as [|x l IH]; simpl; intro H; [reflexivity|].
+    rewrite (H x (or_introl eq_refl)). f_equal. apply IH. intros y Hy. apply H. right. exact Hy.
+  Qed.
+
+  (* Revision.__sub__ of a prefix leaves exactly the suffix (distinct step ids) *)
+  Lemma rev_sub_app (a b : list step) : NoDup (map step_id (a ++ b)) -> rev_sub (a ++ b) a = b.
+  Proof.
+    intro ND. unfold Model.rev_sub. rewrite filter_app.
+    rewrite (filter_all_false _ a), (filter_all_true _ b); [reflexivity| |].
+    - intros s Hs. rewrite (step_in_false a b s ND Hs). reflexivity.
+    - intros s Hs. rewrite (step_in_self s a Hs). reflexivity.
+  Qed.
+
+  Lemma rev_sub_prefix (ss : list step) (k : nat) : ids_distinct ss -> rev_sub ss (firstn k ss) = skipn k ss.
+  Proof.
+    intro ND. pose proof (rev_sub_app (firstn k ss) (skipn k ss)) as H.
+    rewrite firstn_skipn in H. apply H. exact ND.
+  Qed.
+
+  Lemma find_rev_in (revs : list (list step)) (r : list step) :
+    NoDup (map rev_id revs) -> In r revs -> find_rev (rev_id r) revs = Some r.
+  Proof.
+    induction revs as [|r0 revs IH]; simpl; intros ND Hin; [contradiction|].
+    inversion ND as [|? ? Hn ND']; subst.
+    destruct (String.eqb (rev_id r) (rev_id r0)) eqn:E.
+    - destruct Hin as [->|Hin]; [reflexivity|].
+      apply String.eqb_eq in E. exfalso. apply Hn. rewrite <- E. apply in_map. exact Hin.
+    - destruct Hin as [->|Hin]; [rewrite String.eqb_refl in E; discriminate|]. auto.
+  Qed.
+
+  Lemma find_rev_some (rid : string) (revs : list (list step)) (r : list step) :
+    find_rev rid revs = Some r -> In r revs /\ rid = rev_id r.
+  Proof.
+    induction revs as [|r0 revs IH]; simpl; intro H; [discriminate|].
+    destruct (String.eqb rid (rev_id r0)) eqn:E.
+    - inversion H; subst. apply String.eqb_eq in E. auto.
+    - destruct (IH H). auto.
+  Qed.
+
+  Lemma find_rev_none (rid : string) (revs : list (list step)) :
+    (forall r, In r revs -> rev_id r <> rid) -> find_rev rid revs = None.
+  Proof.
+    induction revs as [|r0 revs IH]; simpl; intro H; [reflexivity|].
+    destruct (String.eqb rid (rev_id r0)) eqn:E.
+    - apply String.eqb_eq in E. exfalso. apply (H r0 (or_introl eq_refl)). auto.
+    - apply IH. intros r Hr. apply H. right. exact Hr.
+  Qed.
+
+  Lemma prefix_in_revisions (ss : list step) (k : nat) :
+    1 <= k <= List.length ss -> In (firstn k ss) (revisions ss).
+  Proof.
+    intro H. unfold revisions. apply in_map_iff. exists k. split; [reflexivity|]. apply in_seq. lia.
+  Qed.
+
+  Lemma in_revisions (ss r : list step) :
+    In r (revisions ss) -> exists k, 1 <= k <= List.length ss /\ r = firstn k ss.
+  Proof.
+    unfold revisions. intro H. apply in_map_iff in H. destruct H as [k [Hk Hin]]. apply in_seq in Hin.
+    exists k. split; [lia | auto].
+  Qed.
+
+  (* exactly the missing steps, once, in order *)
+  Lemma get_steps_prefix (ss : list step) (k : nat) :
+    ids_distinct ss -> revs_distinct ss -> 1 <= k <= List.length ss ->
+    get_steps ss (Some (rev_id (firstn k ss))) = skipn k ss.
+  Proof.
+    intros Hi Hr Hk. unfold Model.get_steps.
+    rewrite (find_rev_in _ _ Hr (prefix_in_revisions ss k Hk)). apply rev_sub_prefix. exact Hi.
+  Qed.
+
+  Lemma get_steps_none (ss : list step) : get_steps ss None = ss.
+  Proof. reflexivity. Qed.
+
+  Lemma get_steps_unknown (ss : list step) (rid : string) :
+    (forall r, In r (revisions ss) -> rev_id r <> rid) -> get_steps ss (Some rid) = ss.
+  Proof. intro H. unfold Model.get_steps. rewrite (find_rev_none _ _ H). reflexivity. Qed.
+
+  Lemma get_steps_latest (ss : list step) :
+    ids_distinct ss -> revs_distinct ss -> get_steps ss (Some (rev_id ss)) = [].
+  Proof.
+    intros Hi Hr. destruct ss as [|s ss'] eqn:E; [reflexivity|]. rewrite <- E in *.
+    assert (Hl : 1 <= List.length ss <= List.length ss) by (subst; simpl; lia).
+    pose proof (get_steps_prefix ss (List.length ss) Hi Hr Hl) as H.
+    rewrite firstn_all, skipn_all in H. exact H.
+  Qed.
+
+  (* converse: nothing to do only when the stamp is the current revision *)
+  Lemma get_steps_nil_inv (ss : list step) (r : option string) :
+    ids_distinct ss -> ss <> [] -> get_steps ss r = [] -> r = Some (rev_id ss).
+  Proof.
+    intros Hi Hne H. destruct r as [rid|]; [|simpl in H; contradiction].
+    unfold Model.get_steps in H. destruct (find_rev rid (revisions ss)) as [rv|] eqn:E; [|contradiction].
+    apply find_rev_some in E. destruct E as [Hin ->].
+    apply in_revisions in Hin. destruct Hin as [k [Hk ->]].
+    rewrite (rev_sub_prefix ss k Hi) in H.
+    assert (Hlen : List.length (skipn k ss) = 0) by (rewrite H; reflexivity).
+    rewrite skipn_length in Hlen. assert (k = List.length ss) by lia. subst k.
+    rewrite firstn_all. reflexivity.
+  Qed.
+End GetSteps.
+
+(* ---------- the three DDL statements never lose anything ---------- *)
+
+Lemma lookup_update_same (t : string) (cols new : list string) (s : schema) :
+  lookup t s = Some cols -> lookup t (update t new s) = Some new.
+Proof.
+  induction s as [|[t' c'] s IH]; simpl; intro H; [discriminate|].
+  destruct (String.eqb t t') eqn:E; simpl; rewrite E; [reflexivity | auto].
+Qed.
+
+Lemma lookup_update_other (t u : string) (new : list string) (s : schema) :
+  u <> t -> lookup u (update t new s) = lookup u s.
+Proof.
+  intro Hne. induction s as [|[t' c'] s IH]; simpl; [reflexivity|].
+  destruct (String.eqb t t') eqn:E; simpl.
+  - apply String.eqb_eq in E. subst t'. destruct (String.eqb u t) eqn:E2; [apply String.eqb_eq in E2; contradiction | reflexivity].
+  - destruct (String.eqb u t'); [reflexivity | exact IH].
+Qed.
+
+Lemma lookup_app_some (t : string) (s s2 : schema) (cols : list string) :
+  lookup t s = Some cols -> lookup t (s ++ s2) = Some cols.
+Proof.
+  induction s as [|[t' c'] s IH]; simpl; intro H; [discriminate|].
+  destruct (String.eqb t t'); [exact H | auto].
+Qed.
+
+(* the name a column carries after a statement *)
+Definition renamed (st : stmt) (t c : string) : string :=
+  match st with
+  | RenameColumn t' a b => if String.eqb t t' && String.eqb c a then b else c
+  | _ => c
+  end.
+
+Lemma in_rename (a b c : string) (l : list string) :
+  In c l -> In (if String.eqb c a then b else c) (rename a b l).
+Proof.
+  intro H. unfold rename. apply in_map_iff. exists c. split; [reflexivity | exact H].
+Qed.
+
+(* a successful statement keeps every table, keeps every column (under its possibly new name)
+   and never shortens a table *)
+Lemma exec_preserves (s s' : schema) (st : stmt) (t : string) (cols : list string) :
+  exec s st = Some s' -> lookup t s = Some cols ->
+  exists cols', lookup t s' = Some cols' /\ List.length cols <= List.length cols'
+                /\ forall c, In c cols -> In (renamed st t c) cols'.
+Proof.
+  intros He Hl. destruct st as [t0 c0 | t0 cs | t0 a b]; simpl in He.
+  - destruct (lookup t0 s) as [cols0|] eqn:E0; [|discriminate].
+    destruct (mem c0 cols0); [discriminate|]. inversion He; subst s'; clear He.
+    destruct (String.eqb t t0) eqn:Et.
+    + apply String.eqb_eq in Et. subst t0. rewrite Hl in E0. inversion E0; subst cols0.
+      exists (cols ++ [c0]). rewrite (lookup_update_same t cols _ s Hl). split; [reflexivity|]. split.
+      * rewrite app_length. lia.
+      * intros c Hc. simpl. apply in_or_app. left. exact Hc.
+    + exists cols. rewrite lookup_update_other; [|intro; subst; rewrite String.eqb_refl in Et; discriminate].
+      split; [exact Hl|]. split; [lia|]. intros c Hc. exact Hc.
+  - destruct (lookup t0 s) eqn:E0; [discriminate|]. inversion He; subst s'; clear He.
+    exists cols. split; [apply lookup_app_some; exact Hl|]. split; [lia|]. intros c Hc. exact Hc.
+  - destruct (lookup t0 s) as [cols0|] eqn:E0; [|discriminate].
+    destruct (mem a cols0 && negb (mem b cols0)); [|discriminate]. inversion He; subst s'; clear He.
+    destruct (String.eqb t t0) eqn:Et.
+    + apply String.eqb_eq in Et. subst t0. rewrite Hl in E0. inversion E0; subst cols0.
+      exists (rename a b cols). rewrite (lookup_update_same t cols _ s Hl). split; [reflexivity|]. split.
+      * unfold rename. rewrite map_length. lia.
+      * intros c Hc. simpl. rewrite String.eqb_refl. simpl. apply in_rename. exact Hc.
+    + exists cols. rewrite lookup_update_other; [|intro; subst; rewrite String.eqb_refl in Et; discriminate].
+      split; [exact Hl|]. split; [lia|]. intros c Hc. simpl. rewrite Et. simpl. exact Hc.
+Qed.
